@@ -17,7 +17,7 @@ META = {
                    "base(step|step)*) are compared with DESIGN section 8.3 in specs/detectors.spec. For unprotected_selfdestruct this covers the visibility filter, the "
                    "'only' modifier test, the constructor skip and the protective-call scan including its skip set (selfdestruct/suicide callee, type-conversion callee).",
     "assumptions": ["specs/detectors.spec (DESIGN section 8.3) is the oracle", "str::contains semantics (std)"],
-    "floors": {"R07.walker": 1, "R07.must": 5, "R07.mustnot": 5},
+    "floors": {"R07.walker": 1, "R07.lines": 1, "R07.must": 5, "R07.mustnot": 5},
 }
 
 
@@ -27,6 +27,9 @@ def run(ctx, crate):
     obs.append(depend.inherited(ctx, crate, "R07.walker", "analyzer::ast::walk_node_for_targets", "the search reaches every nested position (C01's obligations on the walker)",
                                 "C01", lambda o: o.rule in ("R01.children", "R01.order", "R01.once", "R01.uncond", "R01.preorder", "R01.loops", "R01.entry"),
                                 example="the pattern inside !( .. ) or inside a catch body"))
+    # "a line is reported": the line is the detector's location converted by the shared lookup (C02's obligations on the line function and its use)
+    obs.append(depend.inherited(ctx, crate, "R07.lines", "analyzer::utils::get_line_number", "a finding's line is the line its construct begins on (C02's obligations on the line lookup)",
+                                "C02", lambda o: o.rule in ("R02.canon", "R02.range", "R02.plumb"), example="a multi-byte character in a comment before the construct"))
     spec = speccmp.load_spec()
     sm = summary.Summ(crate)
     d = D.Dispatch(crate, "vulnerabilities")
